@@ -25,9 +25,19 @@ import (
 
 func main() { Main(map[string]Runner{"hist": runHist, "fork": runFork}) }
 
+// Of eight histories five enforce the receiver rule from genesis (enforcement height 0), one runs wholly below the
+// enforcement height, two have the enforcement height in the middle: the switch-over is crossed by momentums and crossed
+// back by rollbacks.
 func runHist(rng *rand.Rand, n int, out *Out, _ []string) {
 	for i := 0; i < n; i++ {
-		history(rng, out, 60+rng.Intn(60), i%8 == 7)
+		var enf uint64
+		switch i % 8 {
+		case 7:
+			enf = 1 << 60
+		case 3, 5:
+			enf = uint64(3 + rng.Intn(12))
+		}
+		history(rng, out, 60+rng.Intn(60), enf)
 	}
 }
 
@@ -67,22 +77,21 @@ type hist struct {
 	ids    *IDs
 	sc     *Scanner
 	actors []*wallet.KeyPair
-	enf    bool
+	enf    uint64                // verifier.ReceiverMismatchEnforcementHeight of this history
+	legacy map[types.Hash]bool   // blocks the node accepted while its frontier was below the enforcement height
 	events []interface{}
 	codes  []interface{}
 	mirror map[types.Address][]poolEntry // the unconfirmed batches per account, as the model sees them
 	nEv    map[string]int
 }
 
-func history(rng *rand.Rand, out *Out, steps int, preEnforcement bool) {
-	nd := NewNode()
+func history(rng *rand.Rand, out *Out, steps int, enf uint64) {
+	nd := NewNodeEnforcedAt(enf)
+	defer ResetEnforcement()
 	defer nd.Stop()
-	if preEnforcement {
-		verifier.ReceiverMismatchEnforcementHeight = 1 << 60
-		defer func() { verifier.ReceiverMismatchEnforcementHeight = 0 }()
-	}
-	h := &hist{nd: nd, rng: rng, out: out, ids: NewIDs(), sc: NewScanner(nd), actors: Actors(), enf: !preEnforcement,
+	h := &hist{nd: nd, rng: rng, out: out, ids: NewIDs(), sc: NewScanner(nd), actors: Actors(), enf: enf, legacy: map[types.Hash]bool{},
 		events: Lst(), codes: Lst(), mirror: map[types.Address][]poolEntry{}, nEv: map[string]int{}}
+	out.Count("c04:history-regime:" + h.regime())
 	for s := 0; s < steps; s++ {
 		switch k := rng.Intn(100); {
 		case k < 22:
@@ -108,6 +117,16 @@ func history(rng *rand.Rand, out *Out, steps int, preEnforcement bool) {
 	h.momentum()
 	h.momentum()
 	h.finish()
+}
+
+func (h *hist) regime() string {
+	switch {
+	case h.enf <= 1:
+		return "enforced"
+	case h.enf >= 1<<59:
+		return "pre-enforcement"
+	}
+	return "switch-over"
 }
 
 // ---------------------------------------------------------------- model blocks / events
@@ -180,7 +199,7 @@ func (h *hist) checkCase(b *nom.AccountBlock, code int64, tag string) {
 			next = Some(I64(x.Hash(hd.Hash)))
 		}
 	}
-	h.out.Case("c04_check", Tup(h.enf, I64(x.Addr(b.Address)), I64(x.Hash(b.FromBlockHash)), sendto, as.IsReceived(b.FromBlockHash), next),
+	h.out.Case("c04_check", Tup(Tup(U64(h.enf), U64(h.nd.FrontierHeight())), I64(x.Addr(b.Address)), I64(x.Hash(b.FromBlockHash)), sendto, as.IsReceived(b.FromBlockHash), next),
 		I64(code), tag+":"+codeName[code])
 }
 
@@ -198,6 +217,12 @@ func (h *hist) apply(b *nom.AccountBlock, kp *wallet.KeyPair, commit bool, what 
 	}
 	if b.IsReceiveBlock() {
 		h.checkCase(b, code, what)
+		if code == 0 {
+			h.out.Count("c04:accepted-receive:" + h.receiverKind(b))
+			if !h.nd.EnforcedNow() {
+				h.legacy[b.Hash] = true
+			}
+		}
 	}
 	if code == 0 && commit {
 		if e := h.nd.Insert(tx); e != nil {
@@ -212,6 +237,18 @@ func (h *hist) apply(b *nom.AccountBlock, kp *wallet.KeyPair, commit bool, what 
 	}
 	h.event(b, commit && code == 0, code, what)
 	return tx, code
+}
+
+// receiverKind: who receives, and in which regime (distribution counter)
+func (h *hist) receiverKind(b *nom.AccountBlock) string {
+	reg := "enforced"
+	if !h.nd.EnforcedNow() {
+		reg = "legacy"
+	}
+	if sb, _ := h.nd.Ch.GetFrontierMomentumStore().GetAccountBlockByHash(b.FromBlockHash); sb != nil && sb.ToAddress != b.Address {
+		return reg + ":non-addressee"
+	}
+	return reg + ":addressee"
 }
 
 func (h *hist) send(toContract bool) {
@@ -249,16 +286,19 @@ func (h *hist) receive() {
 	rng := h.rng
 	pl := h.sc.Scan(true)
 	mode := rng.Intn(10)
+	if !h.nd.EnforcedNow() && rng.Intn(3) == 0 {
+		mode = 5 + rng.Intn(5) // below the enforcement height: more repeated and foreign attempts
+	}
 	var cands []*nom.AccountBlock
 	for _, s := range pl.Sends {
-		if types.IsEmbeddedAddress(s.Block.ToAddress) {
-			continue
+		if types.IsEmbeddedAddress(s.Block.ToAddress) && !(mode >= 8 && rng.Intn(4) == 0) {
+			continue // (a send to a contract only as the target of an attempt by another account)
 		}
 		recvd := len(pl.ReceivedBy[s.Block.Hash]) > 0
 		switch {
 		case mode <= 4 && !recvd && s.Confirmed: // valid
 			cands = append(cands, s.Block)
-		case (mode == 5 || mode == 6) && recvd: // again, same account
+		case (mode == 5 || mode == 6) && recvd: // again, by an account that has received it (addressee or not)
 			cands = append(cands, s.Block)
 		case mode == 7 && !s.Confirmed: // not yet confirmed
 			cands = append(cands, s.Block)
@@ -277,6 +317,11 @@ func (h *hist) receive() {
 	var kp *wallet.KeyPair
 	if send != nil && mode < 8 {
 		kp = KeyOf(send.ToAddress)
+		if l := pl.ReceivedBy[send.Hash]; (mode == 5 || mode == 6) && len(l) > 0 {
+			if k := KeyOf(l[rng.Intn(len(l))].Address); k != nil {
+				kp = k
+			}
+		}
 	}
 	if kp == nil {
 		kp = h.actors[rng.Intn(len(h.actors))]
@@ -550,23 +595,17 @@ func (h *hist) restart() {
 	}
 }
 
+// the property on a full ledger scan, stated for the regime(s) the history went through (hz/regime.go)
 func (h *hist) oracle(when string) {
-	if !h.enf {
-		return // the statement is for the enforced regime
-	}
 	sc := h.sc.Scan(true)
-	ok, d := sc.ReceiveOracle()
+	ok, d := sc.ReceiveOracleAt(h.enf, func(b *nom.AccountBlock) bool { return h.legacy[b.Hash] })
 	d["when"] = when
 	h.out.Oracle(ok, "c04-receive-once-addressee-fifo", d)
 }
 
 func (h *hist) finish() {
+	h.oracle("end")
 	sc := h.sc.Scan(true)
-	if h.enf {
-		ok, d := sc.ReceiveOracle()
-		d["when"] = "end"
-		h.out.Oracle(ok, "c04-receive-once-addressee-fifo", d)
-	}
 	x := h.ids
 	got := map[types.Address][]interface{}{}
 	inbox := map[types.Address][]interface{}{}
@@ -592,9 +631,5 @@ func (h *hist) finish() {
 		rt = append(rt, Lst(got[a]...))
 		it = append(it, Lst(inbox[a]...))
 	}
-	tag := "enforced"
-	if !h.enf {
-		tag = "pre-enforcement"
-	}
-	h.out.Case("c04_hist", Tup(h.enf, h.events, at), Tup(h.codes, rt, it), tag)
+	h.out.Case("c04_hist", Tup(U64(h.enf), h.events, at), Tup(h.codes, rt, it), h.regime())
 }
